@@ -17,18 +17,22 @@ from props.C03 import spec_rdm
 
 
 def antisymm_generator(nr, nso, cplx=False):
+    """antisymmetric in both index pairs and anti-Hermitian: A[p,q,r,s] = -conj(A[s,r,q,p])"""
     A = numpy.zeros((nso,) * 4, dtype=numpy.complex128 if cplx else numpy.float64)
     for p, q, r, s in itertools.product(range(nso), repeat=4):
         if p < q and s < r and p * nso + q < s * nso + r:
             v = float(nr.randint(1, 5)) / 4
+            if cplx:
+                v = v + 1j * float(nr.randint(-4, 5)) / 4
+            vc = numpy.conj(v)
             A[p, q, r, s] = v
             A[p, q, s, r] = -v
             A[q, p, r, s] = -v
             A[q, p, s, r] = v
-            A[s, r, q, p] = -v
-            A[r, s, q, p] = v
-            A[s, r, p, q] = v
-            A[r, s, p, q] = -v
+            A[s, r, q, p] = -vc
+            A[r, s, q, p] = vc
+            A[s, r, p, q] = vc
+            A[r, s, p, q] = -vc
     return A
 
 
@@ -48,7 +52,7 @@ def run(ctx):
         h2 = C01.symmetrize8(C01.rand_tensor(rng, norb, 2, 0.4, False))
         ham = fqe.get_restricted_hamiltonian((h1, h2))
         hterms = U.restricted_terms([h1, h2], norb)
-        n, sz = rng.choice([(2, 0), (3, 1), (1, -1), (2, 2)])
+        n, sz = rng.choice([(2, 0), (3, 1), (3, -1), (2, 0)])
         w = fqe.Wavefunction([[n, sz, norb]])
         U.random_fill(w, rng, zero_p=0.0)
         ents = U.wfn_entries(w)
@@ -81,36 +85,103 @@ def run(ctx):
         d2 = d2[numpy.ix_(perm, perm, perm, perm)]
         d3 = spec_rdm(d, norb, 0, ents, ents, "i^ j^ k^ l m n")
         d3 = d3[numpy.ix_(perm, perm, perm, perm, perm, perm)]
-        # a two-body operator A = sum A[i,j,k,l] i^ j^ k l (antisymmetrised, Hermitian)
-        A = antisymm_generator(nr, nso)
-        A = 1j * A          # anti-Hermitian generator times i -> Hermitian-like; any tensor is allowed by the docstring
-        aterms = [(A[i, j, k, l], [(i, 1), (j, 1), (k, 0), (l, 0)]) for i, j, k, l in itertools.product(range(nso), repeat=4)
-                  if A[i, j, k, l] != 0]
-        try:
-            got = bc.two_rdo_commutator(A, d2, d3)
-        except Exception as exc:
-            ctx.disagree(f"rdo-commutator-raises:{type(exc).__name__}", str(exc)[:300], desc)
-            continue
-        bad, worst = 0, None
-        for p, q, r, s in itertools.product(range(nso), repeat=4):
-            T = [(p, 1), (q, 1), (r, 0), (s, 0)]
-            terms = [(c, T + t) for c, t in aterms] + [(-c, t + T) for c, t in aterms]
-            e = parse_c(d.ask(f"expect {norb} {fmt_vec(ents)} {fmt_vec(ents)} {fmt_op(terms)}"))
-            ex = complex(float(e[0]), float(e[1]))
-            ctx.case(("rdo", case, p, q, r, s) if ex != 0 else None)
-            if abs(got[p, q, r, s] - ex) > 1e-8 * max(1.0, abs(ex)):
-                bad += 1
-                worst = worst or ((p, q, r, s), complex(got[p, q, r, s]), ex)
-        ctx.count("rdo-commutator-tensors")
-        if bad:
-            ctx.disagree("acse:rdm-contraction-route", f"{bad} elements of two_rdo_commutator differ from <[p^ q^ r s, A]>, e.g. {worst}", desc)
+        # two-body operators A = sum A[i,j,k,l] i^ j^ k l: antisymmetric and Hermitian (-> general, _symm and the
+        # one-body _symm routes) or antisymmetric and anti-Hermitian (-> general and _antisymm routes), real or complex
+        cplx = case % 2 == 1
+        gen0 = antisymm_generator(nr, nso, cplx=cplx)
+        for herm in (True, False):
+            A = 1j * gen0 if herm else gen0.astype(numpy.complex128)
+            aterms = [(A[i, j, k, l], [(i, 1), (j, 1), (k, 0), (l, 0)]) for i, j, k, l in itertools.product(range(nso), repeat=4)
+                      if A[i, j, k, l] != 0]
+            routes = [("two_rdo_commutator", lambda: bc.two_rdo_commutator(A, d2, d3))]
+            if herm:
+                routes.append(("two_rdo_commutator_symm", lambda: bc.two_rdo_commutator_symm(A, d2, d3)))
+            else:
+                routes.append(("two_rdo_commutator_antisymm", lambda: bc.two_rdo_commutator_antisymm(A, d2, d3)))
+            results = {}
+            for name, fn in routes:
+                try:
+                    results[name] = numpy.asarray(fn())
+                except Exception as exc:
+                    ctx.disagree(f"rdo-commutator-raises:{name}:{type(exc).__name__}", str(exc)[:300], desc)
+            bad, worst = {n: 0 for n in results}, {}
+            for p, q, r, s in itertools.product(range(nso), repeat=4):
+                T = [(p, 1), (q, 1), (r, 0), (s, 0)]
+                terms = [(c, T + t) for c, t in aterms] + [(-c, t + T) for c, t in aterms]
+                e = parse_c(d.ask(f"expect {norb} {fmt_vec(ents)} {fmt_vec(ents)} {fmt_op(terms)}"))
+                ex = complex(float(e[0]), float(e[1]))
+                ctx.case(("rdo", case, herm, p, q, r, s) if ex != 0 else None)
+                for name, got in results.items():
+                    if abs(got[p, q, r, s] - ex) > 1e-8 * max(1.0, abs(ex)):
+                        bad[name] += 1
+                        worst.setdefault(name, ((p, q, r, s), complex(got[p, q, r, s]), ex))
+            for name in results:
+                ctx.count(f"rdo-commutator-tensors:{name}:{'hermitian' if herm else 'antihermitian'}:{'complex' if cplx else 'real'}")
+                if bad[name]:
+                    sig = "acse:rdm-contraction-route" if name == "two_rdo_commutator" else f"acse:rdm-contraction-route:{name}"
+                    ctx.disagree(sig, f"{bad[name]} elements of {name} differ from <[p^ q^ r s, A]>, e.g. {worst[name]}",
+                                 {**desc, "hermitian": herm, "complex_tensor": cplx})
+            if herm:
+                try:
+                    got1 = numpy.asarray(bc.one_rdo_commutator_symm(A, d2))
+                    bad1, worst1 = 0, None
+                    for p, q in itertools.product(range(nso), repeat=2):
+                        T = [(p, 1), (q, 0)]
+                        terms = [(c, T + t) for c, t in aterms] + [(-c, t + T) for c, t in aterms]
+                        e = parse_c(d.ask(f"expect {norb} {fmt_vec(ents)} {fmt_vec(ents)} {fmt_op(terms)}"))
+                        ex = complex(float(e[0]), float(e[1]))
+                        ctx.case(("rdo1", case, p, q) if ex != 0 else None)
+                        if abs(got1[p, q] - ex) > 1e-8 * max(1.0, abs(ex)):
+                            bad1 += 1
+                            worst1 = worst1 or ((p, q), complex(got1[p, q]), ex)
+                    ctx.count("rdo-commutator-tensors:one_rdo_commutator_symm")
+                    if bad1:
+                        ctx.disagree("acse:rdm-contraction-route:one_rdo_commutator_symm",
+                                     f"{bad1} elements of one_rdo_commutator_symm differ from <[p^ q, A]>, e.g. {worst1}", desc)
+                except Exception as exc:
+                    ctx.disagree(f"rdo-commutator-raises:one_rdo_commutator_symm:{type(exc).__name__}", str(exc)[:300], desc)
     # ---- generalised doubles factorisation --------------------------------------------------------
-    for case in range(3 if quick else 20):
+    fams = ["real", "complex", "spinfree-itV", "acse-complex"]
+    for case in range(8 if quick else 40):
         nso = 4
         norb = 2
-        gen = antisymm_generator(nr, nso)
-        desc = {"nso": nso, "case": case}
-        for method in ("svd", "takagi"):
+        fam = fams[case % len(fams)]
+        if fam == "real":
+            gen = antisymm_generator(nr, nso)
+        elif fam == "complex":
+            gen = antisymm_generator(nr, nso, cplx=True)
+        elif fam == "spinfree-itV":
+            # -i t V for a real spin-free two-body operator V (degenerate geminal spectrum)
+            v = nr.randint(-2, 3, (norb,) * 4).astype(float) / 4
+            v = v + v.transpose(1, 0, 3, 2)
+            v = v + v.transpose(3, 2, 1, 0)
+            V = numpy.zeros((nso,) * 4)
+            for sa, sb in itertools.product(range(2), repeat=2):
+                V[sa::2, sb::2, sb::2, sa::2] = v
+            V = V - V.transpose(1, 0, 2, 3)
+            V = V - V.transpose(0, 1, 3, 2)
+            V = V + V.transpose(3, 2, 1, 0)
+            gen = -0.3j * V
+        else:
+            # the ACSE residual of a complex wavefunction with a spin-free Hamiltonian (what vbc feeds in)
+            h1 = C01.rand_tensor(rng, norb, 1, 1.0, False)
+            h1 = h1 + h1.T
+            h2 = C01.symmetrize8(C01.rand_tensor(rng, norb, 2, 0.4, False))
+            n_, sz_ = rng.choice([(3, 1), (3, -1), (2, 0)])
+            wr = fqe.Wavefunction([[n_, sz_, norb]])
+            U.random_fill(wr, rng, zero_p=0.0)
+            wr.normalize()
+            gen = numpy.asarray(bc.get_acse_residual_fqe(wr, fqe.get_restricted_hamiltonian((h1 / 4, h2 / 4)), norb))
+            scale = numpy.abs(gen).max()
+            if scale < 1e-6:
+                continue
+            gen = gen * (0.5 / scale)
+        if not (numpy.allclose(gen, -gen.transpose(1, 0, 2, 3)) and numpy.allclose(gen, -gen.transpose(0, 1, 3, 2))
+                and numpy.allclose(gen, -gen.transpose(3, 2, 1, 0).conj())):
+            ctx.count(f"gdf:generator-not-admissible:{fam}")
+            continue
+        desc = {"nso": nso, "case": case, "generator": fam}
+        for method in (("svd", "takagi") if fam == "real" else ("takagi",)):
             try:
                 if method == "svd":
                     ul, vl, ob, ul_ops, vl_ops, ob_op = gdf.doubles_factorization_svd(gen)
@@ -147,9 +218,9 @@ def run(ctx):
                 b = got.get(k, (0, 0))
                 diff = max(diff, abs(complex(float(a[0]), float(a[1])) - complex(float(b[0]), float(b[1]))))
             ctx.case(("gdf", method, case))
-            ctx.count(f"gdf:{method}")
+            ctx.count(f"gdf:{method}:{fam}")
             if diff > 1e-8:
-                ctx.disagree(f"gdf:{method}:reassembly", f"one_body_op + sum V_l U_l differs from the generator on a random state by {diff:.2e}", desc)
+                ctx.disagree(f"gdf:{method}:reassembly" + ("" if fam == "real" else f":{fam}"), f"one_body_op + sum V_l U_l differs from the generator on a random state by {diff:.2e}", desc)
             # normality of the returned one-body operators
             for M in normal_mats:
                 M = numpy.asarray(M)
